@@ -74,7 +74,13 @@ func run(c *core.Ctx) {
 	raceKeys := map[string]int{}
 	sigSeen := map[string]int{}
 	handle := func(r Result) {
-		c.Eval(1)
+		// one evaluation = one run (joined or single) decided by the reference model
+		c.Count("cases", 1)
+		if n := int(r.Stats["runs_joined"] + r.Stats["runs_single"]); n > 0 {
+			c.Eval(n)
+		} else {
+			c.Eval(1)
+		}
 		for k, v := range r.Stats {
 			switch k {
 			case "procs", "case_wall_ms":
